@@ -300,6 +300,26 @@ def r7_signature_search(ctx):
     further while from < to."""
     f = ctx.prog.func(f'{EXP}.is_signature_cancelled')
     sig, nd, fr, to = f.params[1:5]
+    # the search is bounded by the LAST stage the excerpt exports: the bound handed over by export_string is the last stage its
+    # stage loop visits (range(from_stage, to_stage + k) visits up to to_stage + k - 1), whatever convention to_stage follows
+    from ..affine import affine, NotAffine
+    es_ = ctx.prog.func(f'{EXP}.export_string')
+    _lp, shift = c07._loop_shift(es_)
+    if shift is not None:
+        for c_ in walk_local(es_.node):
+            if isinstance(c_, ast.Call) and isinstance(c_.func, ast.Attribute) and c_.func.attr == 'is_signature_cancelled':
+                b_ = F.bind_args(c_, f, True)
+                arg = b_.get(to)
+                try:
+                    d_ = affine(arg) - affine(ast.parse('to_stage', mode='eval').body) if arg is not None else None
+                except NotAffine:
+                    d_ = None
+                if d_ is None or not d_.is_const():
+                    continue
+                ctx.check(d_.const == shift, 'R7', f'{es_.module.relpath}:{c_.lineno}', es_.qualname, 'search-bound-is-last-exported-stage',
+                          'the signature search is bounded by the last stage the excerpt exports',
+                          f'the signature search is bounded by `{src(arg)}` while the stage loop ends at to_stage{shift:+d}: the search looks '
+                          f'{d_.const - shift:+d} stage(s) past the excerpt, so a signature restated right after it cancels the one in force')
     same = G._cmp_atom(ast.parse(f'{nd}.token.__class__', mode='eval').body, ast.Eq(), ast.parse(f'{sig}.token.__class__', mode='eval').body)[1]
     note = f'isinstance({nd}.token, NoteRestToken)'
     more = f'{fr} < {to}'
